@@ -1,4 +1,6 @@
 import StepupModel.Props.C10
+import StepupModel.Lemmas.Resources
+import StepupModel.Lemmas.ResourcesHold
 import StepupModel.Props.C09
 /-!
 # C12  Job, resource and hold limits are never exceeded
@@ -77,5 +79,40 @@ theorem leaving_running_releases (n n' : Node) (st : StepState) (d : Option Bool
     have := (C09.stepRowWrite_inv n n' st d h).2.1
     rw [this] at hs
     exact absurd hs hst
+
+/-! ## Resources and holds over whole histories -/
+
+open StepupModel.K.Resources in
+/-- **The RUNNING steps never hold more units of a resource than available, and never an undefined
+one, after every history** with a fixed resource table in which (a) no step is set RUNNING outside
+the dispatch protocol unless its resources are free (`SetRunningOK`; the code sets RUNNING only in
+`pop_next_job`), (b) a `define` that recycles a step whose command is still running fits the table
+(`RecycleFits`; implied by "no recycle while running"), (c) declared resource names are distinct
+(a dict in the code).  Both (a) and (b) are needed: `set_state_running_negation`,
+`recycle_running_negation` (the known finding F7, replayed on the real code:
+`harness/witness/f7_recycle_running.txt`). -/
+theorem resources_never_overcommitted_partial (cfg : KConfig) (h : List (KConfig × Req))
+    (hg : Guarded cfg.available KState.init h) : ResourcesOK (KState.init.run h) cfg :=
+  reachable_resourcesOK cfg h hg
+
+open StepupModel.K.Resources StepupModel.K.Resources.Witness StepupModel.K.MetaAfter in
+theorem set_state_running_negation :
+    (KeysUnique s2State ∧ ResKeyed s2State ∧ ResourcesOK s2State cfgA) ∧
+    RecycleFits s2State cfgA (.setState stB .running) ∧ DeclKeyed (.setState stB .running) ∧
+    ¬ SetRunningOK s2State cfgA (.setState stB .running) ∧
+    ∃ res, s2State.exec cfgA (.setState stB .running) = .ok res ∧ ¬ ResourcesOK res.1 cfgA :=
+  setState_running_negation
+
+open StepupModel.K.Resources StepupModel.K.SafeDisc StepupModel.K.MetaSafe in
+/-- **A step declared inside a hold block does not start before the outermost hold has been
+released**: after every history of the director (`HistOKS`), a job that `pop_next_job` hands out as
+a RUN (the command is started) belongs to a step all of whose recursive step creators are RUNNING
+or SUCCEEDED and hold nothing.  (A step with a recorded hash may be hash-CHECKED below a holding
+creator; that job starts no command and holds no resources: `check_bypasses_hold_of_director`.) -/
+theorem held_step_is_not_started (h : List (KConfig × Req)) (hh : HistOKS h)
+    {cfg : KConfig} {k : Key} {s' : KState} {run : Bool}
+    (hp : (KState.init.run h).popNext cfg (some k) = .ok (s', .job k false run)) :
+    ∀ n ∈ (KState.init.run h).nodes, n.key = k → ∀ a, StrictAnc (KState.init.run h) a n → Lets a :=
+  hold_blocks_run_of_director h hh hp
 
 end StepupModel.Props.C12
